@@ -113,7 +113,7 @@ theorem cstepG_spec (sim : Sim) (he : sim.ens = .grand) (t : GTrial) (cs : CStat
            | .exch r => (cs.m.obj r).kind = .exch ∧ r ∈ tableRefs sim ∧ r < cs.m.heap.length) :
     EInv (cstepG sim t cs).2 ∧ (cstepG sim t cs).1.2 = energy (cstepG sim t cs).2.m.atoms := by
   have h' : GInv sim (withInp cs t.inp).m :=
-    ⟨⟨h.invg.1, h.invg.2, h.invg.3, h.invg.4, h.invg.5, h.invg.6⟩, h.delta0, h.aligned, h.templ⟩
+    ⟨⟨h.invg.1, h.invg.2, h.invg.3, h.invg.4, h.invg.5, h.invg.6, h.invg.7⟩, h.delta0, h.aligned, h.templ⟩
   have heinv' : EInv (withInp cs t.inp) := ⟨heinv.1, heinv.2, heinv.3⟩
   unfold cstepG GTrial.tree
   cases hk : t.kind with
